@@ -945,7 +945,10 @@ class NetWorld(World):
                 raise Skip()
             outer = sorted(outer)
             left = outer[: 1 + op["b"] % (len(outer) - 1)]
-            res = self._try(lambda: tn.replace_with_svd(tags, left, eps=0.0, which="any", inplace=inplace))
+            # eps must be positive: the default (interpolative) method treats it
+            # as its target precision; eps=0 makes it stop at too small a rank
+            # and mislabel the factors - a misuse, not a map defect
+            res = self._try(lambda: tn.replace_with_svd(tags, left, eps=1e-10, which="any", inplace=inplace))
         elif what == "gate_inds":
             outer = sorted(ix for ix in tn._outer_inds if ind_size(ix) == 2 and not ix.startswith("_"))
             if not outer or hyper or repeated:
